@@ -156,6 +156,7 @@ type MXTx struct {
 	ReplyLost  bool
 	At         time.Duration
 	Step       int
+	MailStep   int // controller step at which MAIL was accepted
 }
 
 // ScriptedMX is a hand-written, deliberately permissive SMTP/LMTP server.
@@ -265,6 +266,7 @@ func (m *ScriptedMX) handle(raw net.Conn, id int) {
 	var from, mailParams string
 	var rcpts, rcptsAll []string
 	connTx := 0
+	mailStep := 0
 	for {
 		idle := 20 * time.Minute
 		if m.Plan.IdleClose > 0 {
@@ -356,6 +358,9 @@ func (m *ScriptedMX) handle(raw net.Conn, id int) {
 			}
 			from, mailParams = strings.Trim(addr, "<>"), params
 			rcpts, rcptsAll = nil, nil
+			if s := simrt.Cur(); s != nil {
+				mailStep = s.Steps()
+			}
 			send("250 2.1.0 sender ok")
 		case strings.HasPrefix(up, "RCPT TO:"):
 			arg := strings.TrimSpace(line[len("RCPT TO:"):])
@@ -432,6 +437,7 @@ func (m *ScriptedMX) handle(raw net.Conn, id int) {
 				Rcpts: append([]string(nil), rcpts...), RcptsAll: append([]string(nil), rcptsAll...), Data: data, PerRcpt: map[string]int{}}
 			if s := simrt.Cur(); s != nil {
 				tx.At, tx.Step = s.Now(), s.Steps()
+				tx.MailStep = mailStep
 			}
 			m.Txs = append(m.Txs, tx)
 			drop := n < len(m.Plan.DropAfterFinal) && m.Plan.DropAfterFinal[n]
